@@ -26,6 +26,7 @@ def main():
     d = os.path.join(V, "seeded", sid)
     meta = json.load(open(os.path.join(d, "meta.json")))
     tier = "quick"
+    jobs = 6
     props = [meta["property"]]
     a = sys.argv[2:]
     i = 0
@@ -34,9 +35,16 @@ def main():
             props = a[i + 1].split(","); i += 1
         elif a[i] == "--all":
             props = [c["property_id"] for c in json.load(open(os.path.join(V, "MANIFEST.json")))["checks"]]
+        elif a[i] == "--jobs":
+            jobs = int(a[i + 1]); i += 1
         elif a[i] == "--tier":
             tier = a[i + 1]; i += 1
         i += 1
+    import fcntl
+    os.makedirs(os.path.join(V, ".build"), exist_ok=True)
+    lock = open(os.path.join(V, ".build", "repo.lock"), "w")
+    fcntl.flock(lock, fcntl.LOCK_EX)  # wait for running checks; later ones wait for us
+    os.environ["PCV_SEEDED"] = "1"
     rc, out = sh(["git", "-C", "/repo", "status", "--porcelain", "--untracked-files=no"])
     if out.strip():
         print("refusing: /repo has local modifications:\n" + out)
@@ -46,15 +54,25 @@ def main():
         print("patch does not apply:", out)
         return 2
     results = {}
+
+    def one(p):
+        t0 = time.time()
+        rc, out = sh([os.path.join(V, "check"), p, "--tier", tier], cwd=V)
+        viol = [l for l in out.split("\n") if l.startswith("VIOLATION")]
+        desc = [l for l in out.split("\n") if l.startswith("# ")][:3]
+        r = {"exit": rc, "violations": viol[:5], "why": desc, "wall_s": round(time.time() - t0, 1),
+             "concrete": any("no-failing-input-found" not in v for v in viol)}
+        print(p, "->", "DETECTED" if viol else "missed", "(concrete input)" if r["concrete"] else "", desc[:1], flush=True)
+        return p, r
+
     try:
-        for p in props:
-            t0 = time.time()
-            rc, out = sh([os.path.join(V, "check"), p, "--tier", tier], cwd=V)
-            viol = [l for l in out.split("\n") if l.startswith("VIOLATION")]
-            desc = [l for l in out.split("\n") if l.startswith("# ")][:3]
-            results[p] = {"exit": rc, "violations": viol[:5], "why": desc, "wall_s": round(time.time() - t0, 1),
-                          "concrete": any("no-failing-input-found" not in v for v in viol)}
-            print(p, "->", "DETECTED" if viol else "missed", "(concrete input)" if results[p]["concrete"] else "", desc[:1])
+        # the first check builds the harness against the patched tree; the others then run side by side
+        from concurrent.futures import ThreadPoolExecutor
+        first = one(props[0])
+        results[first[0]] = first[1]
+        with ThreadPoolExecutor(max_workers=jobs) as ex:
+            for p, r in ex.map(one, props[1:]):
+                results[p] = r
     finally:
         sh(["git", "-C", "/repo", "checkout", "--", "."])
     rp = os.path.join(d, "result.json")
